@@ -5,7 +5,7 @@
     XMLElement.__eq__ / calculate_total_size / children()
     XMLElement.edits → Match | XMLElementEdit
     XMLElementEdit  = [tag edit, attrib edit, optional text edit, child edit], bounds = sum of the parts
-    XMLElementChildren (a ListNode with the DEFAULT list flags: the list options never reach it)
+    XMLElementChildren (a ListNode carrying the two list options of the BuildOptions the tree was built with)
       .edits → Match | FixedLengthSequenceEdit | EditDistance (penalty 1)
   The tag / text edits are `strEdits`, the attribute edit is the L2 `edits` on the attribute mapping (a `Tree`):
   nothing of L2 is re-modelled.  Lean core only.
@@ -196,13 +196,19 @@ def kidsEd (fcs tcs : List XTree) (pen : Nat) (tbl : List (List XScript)) : XScr
   let suf := (List.range ps.2).map fun k => (xMatch 0).relabel (.at (fcs.length - ps.2 + k)) (.at (tcs.length - ps.2 + k))
   .mk .ed .none .none res.1 (pre ++ mid ++ suf)
 
-/-- `XMLElementChildren.edits` = `ListNode.edits` with `allow_list_edits = allow_list_edits_when_same_length = True`
-    (`XMLElement.__init__` builds `XMLElementChildren(children)` without passing any option).
+/-- `XMLElementChildren.edits` = `ListNode.edits`: `XMLElement.__init__` builds
+    `XMLElementChildren(children, allow_list_edits=…, allow_list_edits_when_same_length=…)` from the build options
+    (`xml.build_tree`), and `ListNode.edits` reads the two flags of the FROM list (both trees of a comparison are
+    built with the same options, hence the single `o`, as in the L2 `edits`):
+      equal child tuples → `Match(…, 0)`;
+      `not allow_list_edits or (same length and (not allow_list_edits_when_same_length or length == 1))`
+        → `FixedLengthSequenceEdit`;
+      otherwise → `EditDistance`.
     Penalty: `ListNode.edits` waives it only when every child of both lists is a leaf; elements are containers and
     two empty lists are equal, so whenever an `EditDistance` is built here the penalty is 1. -/
-def kidsScript (fcs tcs : List XTree) (tbl : List (List XScript)) : XScript :=
+def kidsScript (o : Opts) (fcs tcs : List XTree) (tbl : List (List XScript)) : XScript :=
   if xeqL fcs tcs then xMatch 0
-  else if fcs.length == tcs.length && fcs.length == 1 then kidsFixed fcs tcs tbl
+  else if !o.ale || (fcs.length == tcs.length && (!o.alesl || fcs.length == 1)) then kidsFixed fcs tcs tbl
   else kidsEd fcs tcs 1 tbl
 
 /-- `XMLElementEdit(from, to)` given its parts -/
@@ -224,7 +230,7 @@ def xmlEdits (o : Opts) (orc : Oracle) : List Nat → List Nat → XTree → XTr
         let tbl : List (List XScript) := fcs.attach.zipIdx.map fun (⟨fc, _⟩, c) =>
           tcs.zipIdx.map fun (tc, r) => xmlEdits o orc (fp ++ [kf, c]) (tp ++ [kt, r]) fc tc
         elemScript (strEdits ftag ttag) (edits o orc (fp ++ [1]) (tp ++ [1]) fattr tattr) (textEdit ftext ttext)
-          kf kt (kidsScript fcs tcs tbl)
+          kf kt (kidsScript o fcs tcs tbl)
 termination_by _ _ f _ => sizeOf f
 decreasing_by
   all_goals simp_wf
